@@ -513,7 +513,16 @@ void scan_deps(const std::string& orig_portname, std::string cur_portname,
                         ++enabled_by;
                     if(!*enabled_by) // behind the trailing ',' of rDepends
                         break;
-                    std::string abs = rel2abs(enabled_by, cur_portname);
+                    // an entry "name/x" on the sub-tree port "name/" or "name#N/"
+                    // names the port x inside the sub-tree itself: it stands
+                    // below the message's own, expanded, address ("/name1/x")
+                    const char* n = port->name;
+                    const char* e = enabled_by;
+                    for( ; *n && *n == *e && *n != '/' && *e != '/'; ++n, ++e) ;
+                    const bool inside = is_parent && *n == '/' && *e == '/' &&
+                                        !strchr(rel2abs(e+1, "/").c_str()+1, '/');
+                    std::string abs = inside ? rel2abs(e+1, cur_portname + "/")
+                                             : rel2abs(enabled_by, cur_portname);
                     if(abs == orig_portname || abs == start_portname)
                         continue;
                     auto itr = message_map.find(abs);
